@@ -73,8 +73,8 @@ def gen_program(rng, max_depth):
         nodes.append(node)
         nargs = rng.randrange(0, 4)
         node["args"] = [rng.choice(SHAPES) for _ in range(nargs)]
-        node["kwargs"] = [(rng.choice(["k", "key2", "a b", "é", "class"]) + str(i), rng.choice(SHAPES))
-                          for i in range(rng.randrange(0, 3))]
+        node["kwargs"] = [(rng.choice(["k", "key2", "a b", "é", "class", "zz", "B", "_u"]) + str(i), rng.choice(SHAPES))
+                          for i in range(rng.choice([0, 0, 1, 2, 2, 3, 4]))]
         # "passon" hands on the first reference the parent itself received; its concrete shape is known statically
         pshape = parent_passable
         node["args"] = [("passon:" + pshape if pshape else "obj") if a == "passon" else a for a in node["args"]]
@@ -196,6 +196,7 @@ class Worker(object):
         seen.append(len(args))
         kwshape = dict(node["kwargs"])
         seen += [(k, summ(v, kwshape[k], node["use_callable"])) for k, v in sorted(kwargs.items())]
+        seen.append(("keyword order as the callee sees it", tuple(kwargs)))
         w.observed.setdefault(nid, []).append(seen)
         passable = [a for a, sh in zip(args, node["args"]) if sh.split(":")[-1] in REFSHAPES]
         acc = []
